@@ -72,6 +72,36 @@ CHECKS = {
         "Refusal is not asserted for terms whose coefficient is exactly zero (property leaves it open). Sense unspecified is outside the alphabet.",
         "bounded exhaustive enumeration of objectives x all binary assignments on the real code vs exact evaluation",
     ),
+    "C12": (
+        "model_checking",
+        "log_encode on every integer range: every width 0..=4096 x 8 lower ends (-2^20 .. 2^20-w) x fractional offsets {0,.25,.5,.75} on both ends, the value set over ALL 2^n bit patterns computed as the subset-sum set of the returned integer coefficients and required to be exactly ceil(l)..floor(u) (for widths <= 64 additionally the SDK's own evaluate on every pattern); every width 1..2^21 at three lower ends through the complete-sequence criterion (necessary and sufficient for positive integers; cross-validated against brute force on all widths <= 4096). Registration of the new binaries (fresh ids under two list layouts that make last-element and list-length id schemes collide, kind binary, bound [0,1], tagged with the encoded id), single-integer range => constant. Every error condition: unknown id, each non-integer kind, absent bound, no integer in bound, NaN bounds, and the infinite bounds in an rlimit'd (1 GiB) subprocess with a 10 s watchdog, where abort/kill/timeout is the violating outcome; failed calls must leave the instance unchanged.",
+        "Trusted: subset-sum DP over exact integer coefficients equals enumeration of bit patterns. Subprocess isolation via fork/exec of the harness binary with RLIMIT_AS.",
+        "exhaustive enumeration of integer ranges x all bit patterns on the real code; fault enumeration of error conditions incl. subprocess-isolated non-termination",
+    ),
+    "C13": (
+        "model_checking",
+        "Every inequality f(x)<=0 with f = up to 2 (quick) / 3 (thorough) distinct monomials of degree<=2 + constant, coefficients {+-1,+-2,3,+-1/2,1/3,-2/3,3/4}, constants {-3,-1,-1/2,0,1/2,2}, over 1..3 integer/binary variables, every assignment of 5 boxes to the variables, Linear/Quadratic/Polynomial representations, another constraint present, two variable-list layouts; convert_inequality_to_equality_with_integer_slack x max_integer_range {1,3,100} and add_integer_slack_to_inequality x slack_upper_bound {1,2,5}. Oracle: brute force over EVERY lattice point of the box and EVERY slack value in the new variable's bounds: feasible set in x unchanged; slack integer, fresh id, bound [0,S], same constraint id, b reported = slack coefficient; moved-to-removed => constraint unchanged and satisfied everywhere; InfeasibleDetected => no clearly feasible lattice point; for linear f the determined outcomes are asserted in the converse direction too; rejections (unknown id, equality, continuous variable, range above limit) leave the instance unchanged.",
+        "Feasibility at lattice points uses the 1e-6 rule on values that are multiples of 1/12 (far from the tolerance). add_integer_slack's exact-zero threshold with non-dyadic coefficients is not asserted at the boundary (counted as boundary_cases_not_asserted). slack_upper_bound=0 and unbounded variables are outside the alphabet.",
+        "bounded exhaustive enumeration of inequalities x boxes with brute-force lattice/slack oracle on the real code",
+    ),
+    "C14": (
+        "model_checking",
+        "Explicit-state breadth-first search with stateright over the real Instance: from each of 11 initial instances (3 constraint-function sets, 0/1/2/all constraints initially removed) every action relax(id, reason in {a,b}, params in {none,{k:v}}) / restore(id) for every constraint id and the unknown id 99. The instance message is the whole state (dedup key = message bytes + reference model), so every history of any length is covered, not only length <= 8. Every transition is compared with a two-set reference model (op on an id not in the expected list must fail and leave the instance equal to its clone); every reachable state is checked: multiset of (id, function, equality, metadata) over active+removed unchanged, ids partitioned, recorded reasons/parameters, and on all 27 grid states per-constraint values and feasible equal the initial instance's while feasible_relaxed follows the currently active constraints.",
+        "stateright 0.31 BFS; violations are collected through a side channel so exploration continues and every signature is reported; replay re-executes the recorded history without the explorer.",
+        "explicit-state model checking (stateright BFS) of the real code with a reference model in lock-step",
+    ),
+    "C15": (
+        "model_checking",
+        "(a) as_minimization_problem on every objective of the medium representation family x both senses, once and twice: sense, objective == +-f as exact polynomials, every other field untouched, idempotent, identical ranking of all pairs of grid states. (b) every sample set with k<=5 (quick) / k<=7 (thorough; k=8 over two objective values) samples where each sample independently takes one of 3 objective values (so ties occur) and one of 3 feasibility classes (infeasible / feasible for remaining constraints only / feasible for all), produced by the real evaluate_samples, x both senses x {current fields, legacy fields decoded by prost}: the returned id is feasible in the requested sense and unbeaten under the set's sense, Err exactly when no sample is feasible; feasible-id sets and the best Solution getters agree.",
+        "Legacy = tag 4 holds remaining-constraint feasibility, tag 6 all-constraint feasibility, tag 7 absent. Unspecified sense and unset-oneof objectives are outside the alphabet.",
+        "bounded exhaustive enumeration of (objective, sense) and of sample-set feasibility/objective patterns on the real code",
+    ),
+    "C16": (
+        "model_checking",
+        "All 26 valid intervals over endpoints {-inf,-2,-0.5,0,0.5,3,+inf}: every ordered pair through + and * (also += and *=), powers 0..6, scaling/shifting by non-zero numbers; each result must be a valid interval (no panic, no NaN, lower<=upper) enclosing the exact pointwise result for every alphabet point of the operands (corners, faces, interior, +-1000 on infinite sides). as_integer_bound on every 1/4-grid interval in [-3,3] (and infinite sides, and endpoints 1e-7 off the grid) containing an integer. evaluate_bound for a degree<=4 function family (all representations, repeated ids => powers) x every assignment of the 26 intervals or no entry to two variables x every grid point of the box. content_factor for all reduced p/q with q,|p|<=60 in four representations, all ordered pairs (q<=12 quick, q<=60 thorough = 4.8M pairs) and triples from a small pool, against lcm(q)/gcd(p) exactly.",
+        "All interval endpoints, points and coefficients are small dyadic rationals, so pointwise values are exact in f64. Scaling by 0 and as_integer_bound on integer-free intervals are excluded by the property.",
+        "bounded exhaustive enumeration of intervals/boxes/points and of rational coefficient pairs on the real code vs exact arithmetic",
+    ),
 }
 
 NOT_YET = "check not yet implemented in this revision of /verif (planned in DESIGN.md section 5)"
